@@ -1,5 +1,6 @@
 import OZ.Drv.FungibleIO
 import OZ.Model.GatesMon
+import OZ.Model.GatesStkMon
 /-
 Driver for C16 (pause, allow / block lists, cap, migration flag).
 
@@ -13,7 +14,8 @@ calls the model's transition functions):
   * every accepted transfer / transfer_from / approve / burn / burn_from had all its vetted
     parties allowed (not blocked) according to the monitor's own ghost list, which is built
     from the accepted allow / disallow / block / unblock calls and cross-checked against the
-    `allowed` / `blocked` getters after every call;
+    `allowed` / `blocked` getters after every call; a list change that does not flip the status of
+    the account emits no list event and changes nothing, one that does emits exactly the matching event;
   * total supply <= cap after every call of the capped token;
   * a migration completes only if an enable / upgrade happened since the last completion;
   * a rejected call changes nothing that is observed.
@@ -21,6 +23,13 @@ calls the model's transition functions):
 This file only parses (`parseLabel`, `parseLine`, `parseObs`, `minitM`) and calls the monitor core
 `OZ.Gates.Mon.checkCore` (OZ/Model/GatesMon.lean), which OZ/Props/C16Mon.lean proves sound (it
 reports nothing on any observation sequence of the model, for all eight machines).
+
+Ninth machine `stk` (label `kind=stk`, also written `m=stk`; harness contract `stk::Stacked`: entry points
+stacking an authorization guard and a pause guard in both orders of the attributes): it has its own small
+model side and monitor core, `OZ.Gates.Stk.Mon.stepM` / `checkCore` (OZ/Model/GatesStkMon.lean, proved sound
+in OZ/Props/C16StkMon.lean); `machine` dispatches on the label (`Sigma`/`MonSt`), this file only parses
+(`parseStkOp`, `parseStkLine`, `parseStkObs`) and prints (`stkObsLine`) for it. The lines and `site=` tokens
+of the other eight machines are unchanged.
 Not covered by that theorem (string level, kept here): the parsers themselves (an absent or
 malformed field of an observation reads as its default; a rejected call is compared with the
 previous observation on the PARSED getters, i.e. every word of the line but the tag, `ev=`, `dem=`
@@ -43,13 +52,14 @@ structure Label where
   minTemp : Nat
   start : Nat
   maxTtl : Nat
+  adm : Nat := 0        -- machine `stk` only
 
 def parseLabel (label : String) : Label :=
   let ws := words label
   { kind := (kv? ws "kind").getD "", owner := (kvNat? ws "owner").getD 0, mgr := (kvNat? ws "mgr").getD 0,
     init := (kvInt? ws "init").getD 0, cap := (kvInt? ws "cap").getD 0, ver := (kvNat? ws "ver").getD 0,
     minTemp := (kvNat? ws "min_temp").getD 1, start := (kvNat? ws "start").getD 100,
-    maxTtl := (kvNat? ws "max_ttl").getD MAX_TTL }
+    maxTtl := (kvNat? ws "max_ttl").getD MAX_TTL, adm := (kvNat? ws "adm").getD 0 }
 
 def parseMKind (s : String) : MKind :=
   match s with
@@ -154,7 +164,7 @@ def stepLine (m : M) (line : String) : M × String :=
       let fev := match tokOf m.x.st, tokOf r.1.st with
         | some t, some t' => (t'.events.drop t.events.length).map showEvent
         | _, _ => []
-      let gev := ((logOf r.1.st).drop (logOf m.x.st).length).map showG
+      let gev := (newEvents m.x.st r.1.st).map showG
       let evs := fev ++ gev
       let dem := match op with
         | .tok (.advance _) => "-"
@@ -203,6 +213,17 @@ def parseData (s : String) : Option (Nat × Nat) :=
   | [a, b] => do pure ((← a.toNat?), (← b.toNat?))
   | _ => none
 
+/-- the list-change events of the `ev=` word (`allowed:<u>`, `disallowed:<u>`, `blocked:<u>`, `unblocked:<u>`;
+everything else — token events, `paused` / `unpaused` — is not a list event) -/
+def parseLev (s : String) : List GEvent :=
+  (s.splitOn ";").filterMap fun t =>
+    match t.splitOn ":" with
+    | ["allowed", u] => u.toNat?.map GEvent.userAllowed
+    | ["disallowed", u] => u.toNat?.map GEvent.userDisallowed
+    | ["blocked", u] => u.toNat?.map GEvent.userBlocked
+    | ["unblocked", u] => u.toNat?.map GEvent.userUnblocked
+    | _ => none
+
 /-- the observation line as the monitor reads it (never fails: absent fields read as defaults) -/
 def parseObs (obs : String) : Obs :=
   let ows := words obs
@@ -222,7 +243,8 @@ def parseObs (obs : String) : Obs :=
       cap := (kv? ows "cap").bind String.toInt?,
       migrating := (kv? ows "migrating") == some "1",
       data := ((kv? ows "data").bind parseData),
-      wasm := (kv? ows "wasm") == some "1" } }
+      wasm := (kv? ows "wasm") == some "1" },
+    lev := parseLev ((kv? ows "ev").getD "-") }
 
 def check (m : Mon) (opl obs : String) : Mon × Option String :=
   -- a sequence the harness could not run (e.g. the constructor trapped): no observation to judge;
@@ -230,13 +252,122 @@ def check (m : Mon) (opl obs : String) : Mon × Option String :=
   if (words obs).any (· == "harness-panic") then (m, none) else
   checkCore m (parseLine opl) (parseObs obs)
 
+/-! ### machine `stk` (stacked guards): parsing and printing only -/
+
+namespace StkIO
+open OZ.Gates.Stk OZ.Gates.Stk.Mon
+
+def parseFn (s : String) : Option Fn :=
+  match s with
+  | "inc_a" => some .incA | "inc_b" => some .incB | "reset_a" => some .resetA | "reset_b" => some .resetB
+  | "inc_c" => some .incC | "inc_d" => some .incD | "reset_c" => some .resetC | "reset_d" => some .resetD
+  | "inc_r" => some .incR | "inc_r2" => some .incR2 | "reset_r" => some .resetR | "reset_r2" => some .resetR2
+  | _ => none
+
+/-- the parameters of a `kind=stk` label (`mgr=`: the holder of the role "op") -/
+def paramsOf (l : Label) : Stk.Mon.Params := { owner := l.owner, admin := l.adm, opr := l.mgr, start := l.start }
+
+/-- the op line as the model side reads it -/
+def parseOp (line : String) : Option (List Nat × SOp) :=
+  match words line with
+  | "fungible" :: "advance" :: rest => some ([], .advance ((kvNat? rest "n").getD 0))
+  | "gate" :: name :: rest =>
+    let a := natList ((kv? rest "a").getD "-")
+    let auth := natList ((kv? rest "auth").getD "-")
+    match name, a with
+    | "pause", [c] => some (auth, .op (.pause c))
+    | "unpause", [c] => some (auth, .op (.unpause c))
+    | _, _ =>
+      match parseFn name with
+      | none => none
+      | some f =>
+        match f.spec.who, a with
+        | .role, [c] => some (auth, .op (.call f c))
+        | .role, _ => none
+        | _, [] => some (auth, .op (.call f 0))
+        | _, _ => none
+  | _ => none
+
+/-- the observation line of model state `x`: the fields of `OZ.Gates.Stk.Mon.modelObs` -/
+def obsLine (tag : String) (o : Stk.Mon.Obs) (ev dem : String) : String :=
+  let ret := match o.ret with | some r => toString r | none => "-"
+  s!"{tag} ret={ret} now={o.st.now} ev={ev} dem={dem} counter={o.st.counter} paused={b01 o.st.paused}"
+
+def stepLine (x : Stk.Mon.MSt) (line : String) : Stk.Mon.MSt × String :=
+  match parseOp line with
+  | none => (x, "bad-op")
+  | some (auth, op) =>
+    let r := stepM x auth op
+    if r.2 then
+      let evs := ((r.1.s.p.log).drop x.s.p.log.length).map showG
+      let dem := showList toString ((demandedBy x.s op).mergeSort (· ≤ ·))
+      (r.1, obsLine "ok" (modelObs r.1 true op) (if evs.isEmpty then "-" else ";".intercalate evs) dem)
+    else (x, obsLine "err" (modelObs x false op) "-" "-")
+
+/-- the op line as the monitor reads it (never fails) -/
+def parseLine (opl : String) : Stk.Mon.Line :=
+  let ws := words opl
+  let name := (ws.drop 1).head?.getD ""
+  let call : Stk.Mon.Call :=
+    match ws.head?.getD "" with
+    | "fungible" => if name = "advance" then .advance else .other
+    | "gate" =>
+      match name with
+      | "pause" => .pause
+      | "unpause" => .unpause
+      | _ => match parseFn name with | some f => .fn f | none => .other
+    | _ => .other
+  { call := call, a := natList ((kv? ws "a").getD "-"), auth := natList ((kv? ws "auth").getD "-"),
+    n := (kvNat? ws "n").getD 0 }
+
+/-- the observation line as the monitor reads it (never fails: absent fields read as defaults) -/
+def parseObs (obs : String) : Stk.Mon.Obs :=
+  let ows := words obs
+  { ok := ows.head? = some "ok",
+    ret := kvInt? ows "ret",
+    st := { now := (kvNat? ows "now").getD 0, counter := (kvInt? ows "counter").getD 0,
+            paused := (kv? ows "paused") == some "1" } }
+
+def check (m : Stk.Mon.Mon) (opl obs : String) : Stk.Mon.Mon × Option String :=
+  if (words obs).any (· == "harness-panic") then (m, none) else
+  checkCore m (parseLine opl) (parseObs obs)
+
+end StkIO
+
+/-! ### dispatch on the label -/
+
+/-- the model state of a sequence: one of the eight gate machines, or the machine `stk` -/
+inductive Sigma where
+  | gates (m : M)
+  | stk (x : OZ.Gates.Stk.Mon.MSt)
+
+inductive MonSt where
+  | gates (m : Mon)
+  | stk (m : OZ.Gates.Stk.Mon.Mon)
+
+def isStk (label : String) : Bool := (parseLabel label).kind == "stk"
+
+def initAny (label : String) : Sigma :=
+  if isStk label then .stk (OZ.Gates.Stk.Mon.initM (StkIO.paramsOf (parseLabel label))) else .gates (initM label)
+
+def opAny : Sigma → String → Sigma × String
+  | .gates m, line => let r := stepLine m line; (.gates r.1, r.2)
+  | .stk x, line => let r := StkIO.stepLine x line; (.stk r.1, r.2)
+
+def minitAny (label : String) : MonSt :=
+  if isStk label then .stk (OZ.Gates.Stk.Mon.monInit (StkIO.paramsOf (parseLabel label))) else .gates (minitM label)
+
+def monAny : MonSt → String → String → MonSt × Option String
+  | .gates m, opl, obs => let r := check m opl obs; (.gates r.1, r.2)
+  | .stk m, opl, obs => let r := StkIO.check m opl obs; (.stk r.1, r.2)
+
 def machine : Machine where
-  σ := M
-  init := initM
-  op := stepLine
-  μ := Mon
-  minit := minitM
-  mon := check
+  σ := Sigma
+  init := initAny
+  op := opAny
+  μ := MonSt
+  minit := minitAny
+  mon := monAny
 
 end OZ.Drv.C16
 
